@@ -2,6 +2,7 @@ package rules
 
 import (
 	"fmt"
+	"go/types"
 	"strings"
 
 	"golang.org/x/tools/go/ssa"
@@ -32,6 +33,7 @@ func c16(c *Ctx) {
 		// the same transaction spelled out: NewTransaction(true), one plain Set, blocking Commit
 		if c16manualTxn(c, p, st) {
 			c16onDisk(c, p)
+			c16lookup(c, a)
 			return
 		}
 		R.Fail("C16.ack-implies-commit", "C16.ack-implies-commit/StoreSignedVAA/update", c.rel(p.Pos(st.Pos())), "write transaction", "no (*badger.DB).Update call in StoreSignedVAA")
@@ -93,6 +95,7 @@ func c16(c *Ctx) {
 	}
 	R.Check("C16.synchronous", "C16.synchronous/StoreSignedVAA", c.rel(p.Pos(st.Pos())), "the write happens on the caller's goroutine inside db.Update before StoreSignedVAA returns", bad == "", bad)
 	c16onDisk(c, p)
+	c16lookup(c, a)
 }
 
 // c16manualTxn accepts `txn := db.NewTransaction(true); defer txn.Discard(); txn.Set(k, v); txn.Commit()`
@@ -192,4 +195,50 @@ func c16onDisk(c *Ctx, p *load.Program) {
 		})
 	}
 	R.Pass("C16.on-disk", "C16.on-disk/no-foreign-file-ops", "", fmt.Sprintf("scanned %d functions of pkg/db for file-mutating calls outside badger", nscan), "who-may-write rule for the store directory")
+}
+
+// c16lookup: "once a store has returned success, every later lookup returns the VAA" needs the
+// lookup to be answered by the store itself: every return of GetSignedVAABytes follows a read
+// transaction of the same invocation, and the function consults no state of the Database other
+// than the badger handle (an in-memory answer — a cache of misses, a bloom filter — can be stale
+// with respect to a commit that has already been acknowledged).
+func c16lookup(c *Ctx, a *procAnchors) {
+	p, R := a.p, c.R
+	get := a.getBytes
+	isRead := func(i ssa.Instruction) bool {
+		cl, ok := i.(*ssa.Call)
+		if !ok {
+			return false
+		}
+		n := facts.CalleeName(&cl.Call)
+		return n == "(*badger.DB).View" || n == "(*badger.DB).NewTransaction"
+	}
+	n := 0
+	eachInstr(get, func(i ssa.Instruction) {
+		r, ok := i.(*ssa.Return)
+		if !ok {
+			return
+		}
+		n++
+		R.Check("C16.lookup", R.Key("C16.lookup", shortFn(get), "return-after-read"), c.rel(p.Pos(instrPos(r))), "every answer of GetSignedVAABytes follows a read transaction of this invocation", facts.Before(r, isRead), "a return is reachable without reading the store: the answer comes from memory and can be stale with respect to an acknowledged commit")
+	})
+	R.Floor("C16.lookup.returns", n, 1)
+	dbF := must(p.FieldOf(pkgDB, "Database", "db"), "Database.db")
+	var other []string
+	dbFields := map[*types.Var]bool{}
+	if st, ok := must(p.Named(pkgDB, "Database"), "db.Database").Underlying().(*types.Struct); ok {
+		for k := 0; k < st.NumFields(); k++ {
+			dbFields[st.Field(k)] = true
+		}
+	}
+	for _, f := range withAnon(get) {
+		eachInstr(f, func(i ssa.Instruction) {
+			if fa, ok := i.(*ssa.FieldAddr); ok {
+				if fv := fieldOfAddr(fa); fv != nil && fv != dbF && dbFields[fv] {
+					other = append(other, fv.Name())
+				}
+			}
+		})
+	}
+	R.Check("C16.lookup", "C16.lookup/only-the-store", c.rel(p.Pos(get.Pos())), "GetSignedVAABytes consults nothing of the Database but the badger handle", len(other) == 0, "fields read or written: "+strings.Join(other, ","))
 }
